@@ -164,8 +164,28 @@ def check_trim(rng, w, kind):
     if abs(float(np.sum(w_out)) - 1) > 1e-9:
         bad.append(("trim-sum", f"trimmed weights sum to {np.sum(w_out)!r}"))
     e0, e1 = float(ess_ref(wn)), float(ess_ref(exp))
-    if e1 < frac * e0 * (1 - 1e-9):
+    # (the library forms the same ratio in double precision from <= 1.2e4 terms: 1e-11 covers its rounding, nothing more)
+    if e1 < frac * e0 * (1 - 1e-11):
         bad.append(("trim-ess", f"trimmed ESS {e1!r} < {frac} * {e0!r}"))
+    # directed: ask for a hair more than what this cut achieves - the answer must move to a cut that really provides it
+    if not bad and len(ids) < n:
+        r_ach = e1 / e0
+        for delta in (4e-10, 3e-11):
+            req = r_ach * (1 + delta)
+            if not (0 < req < 1):
+                continue
+            try:
+                s4, w4 = trim_weights(samples, w.copy(), ess=req, bins=bins)
+            except Exception as e:
+                # (a request the percentile grid cannot meet is allowed to fail loudly - that is not the clause judged here)
+                continue
+            ids4 = (s4 if s4.ndim == 1 else s4[:, 0]).astype(int)
+            e4 = float(ess_ref(wn[ids4] / wn[ids4].sum()))
+            check_trim.directed = getattr(check_trim, "directed", 0) + 1
+            if e4 < req * e0 * (1 - 1e-11):
+                bad.append(("trim-ess", f"requested fraction {req!r} (= the ratio {r_ach!r} reached at ess={frac}, times 1+{delta}): trimmed ESS {e4!r} is only "
+                            f"{e4 / e0!r} of the untrimmed {e0!r}"))
+                break
     return bad, frac, bins
 
 
@@ -349,6 +369,7 @@ def _batch(seed, start, count):
         rng = ck.rng("w", i)
         w, kind = gen_w(rng)
         out = []
+        d0 = getattr(check_trim, "directed", 0)
         try:
             out += [(k, wh) for k, wh in check_ess(w, kind)]
             bt, frac, bins = check_trim(rng, w, kind)
@@ -364,7 +385,7 @@ def _batch(seed, start, count):
                 out += bv
             except Exception:
                 out.append(("exception", fmt_exc()))
-        res.append((i, dict(n=len(w), kind=kind, ess_frac=frac, bins=bins), out, vdesc, judged,
+        res.append((i, dict(n=len(w), kind=kind, ess_frac=frac, bins=bins, directed=getattr(check_trim, "directed", 0) - d0), out, vdesc, judged,
                     float(ess_ref(w)) < len(w) * 0.999))
     return res
 
@@ -382,6 +403,7 @@ def run():
             ck.case(desc, nontrivial=skew)
             ck.event("ESS contract evaluated")
             ck.event("trim_weights contract evaluated")
+            ck.event("directed re-requests (a fraction 4e-10 / 3e-11 above the ratio the previous cut reached)", desc.get("directed", 0))
             if vdesc:
                 ck.case(dict(volume=vdesc), nontrivial=judged)
                 ck.event("volume_variation case")
